@@ -461,8 +461,12 @@ func (s *vfC07Sys) identify(what string, data []map[string]any) (idx []int) {
 		prev = tm.UnixNano()
 
 		r := all[i]
-		want, optional := vfC07Expect(r, s.clients, s.anonymise)
-		err = vfC07CompareEntry(item, vfC07Norm(want).(map[string]any), optional)
+		if r.want[anonIdx] == nil {
+			want, optional := vfC07Expect(r, s.clients, s.anonymise)
+			r.want[anonIdx], r.optional[anonIdx] = vfC07Norm(want).(map[string]any), optional
+		}
+		optional := r.optional[anonIdx]
+		err = vfC07CompareEntry(item, r.want[anonIdx], optional)
 		if err != nil {
 			s.fail("%s: entry %s in %s is returned changed: %v\nitem: %s", what, r.describe(), s.where(i), err, vfC07JSON(item))
 		}
